@@ -130,6 +130,35 @@ fn c03() -> usize {
     n
 }
 
+/// C08 (dialect-specific constructs in that dialect's form): the spelling of every binary operator, incl. the Postgres-only and SQLite-only
+/// ones and the pgvector distance operators (feature postgres-vector).  Expected spellings from the manuals (PostgreSQL 9.7 / 9.16 / F.35
+/// pg_trgm / pgvector README: `<->` L2 distance, `<#>` negative inner product, `<=>` cosine distance; SQLite lang_expr), not from the code.
+fn c08() -> usize {
+    use sea_query::extension::postgres::PgBinOper as P;
+    use sea_query::extension::sqlite::SqliteBinOper as S;
+    use sea_query::{Alias, BinOper as B, Expr, ExprTrait, MysqlQueryBuilder, PostgresQueryBuilder, Query, SqliteQueryBuilder};
+    let common: Vec<(B, &str)> = vec![(B::And, "AND"), (B::Or, "OR"), (B::Like, "LIKE"), (B::NotLike, "NOT LIKE"), (B::Is, "IS"), (B::IsNot, "IS NOT"), (B::In, "IN"), (B::NotIn, "NOT IN"),
+        (B::Equal, "="), (B::NotEqual, "<>"), (B::SmallerThan, "<"), (B::GreaterThan, ">"), (B::SmallerThanOrEqual, "<="), (B::GreaterThanOrEqual, ">="),
+        (B::Add, "+"), (B::Sub, "-"), (B::Mul, "*"), (B::Div, "/"), (B::Mod, "%"), (B::LShift, "<<"), (B::RShift, ">>"), (B::BitAnd, "&"), (B::BitOr, "|")];
+    let pg: Vec<(P, &str)> = vec![(P::ILike, "ILIKE"), (P::NotILike, "NOT ILIKE"), (P::Matches, "@@"), (P::Contains, "@>"), (P::Contained, "<@"), (P::Concatenate, "||"), (P::Overlap, "&&"),
+        (P::Similarity, "%"), (P::WordSimilarity, "<%"), (P::StrictWordSimilarity, "<<%"), (P::SimilarityDistance, "<->"), (P::WordSimilarityDistance, "<<->"), (P::StrictWordSimilarityDistance, "<<<->"),
+        (P::GetJsonField, "->"), (P::CastJsonField, "->>"), (P::Regex, "~"), (P::RegexCaseInsensitive, "~*"),
+        (P::EuclideanDistance, "<->"), (P::NegativeInnerProduct, "<#>"), (P::CosineDistance, "<=>")];
+    let sl: Vec<(S, &str)> = vec![(S::Glob, "GLOB"), (S::Match, "MATCH"), (S::GetJsonField, "->"), (S::CastJsonField, "->>")];
+    let mut n = 0usize;
+    let e = |op: B| Query::select().expr(Expr::col(Alias::new("a")).binary(op, Expr::col(Alias::new("b")))).to_owned();
+    for (op, txt) in common {
+        for (be, got, q) in [("mysql", e(op).to_string(MysqlQueryBuilder), '`'), ("postgres", e(op).to_string(PostgresQueryBuilder), '"'), ("sqlite", e(op).to_string(SqliteQueryBuilder), '"')] {
+            n += 1;
+            let want = format!("SELECT {q}a{q} {txt} {q}b{q}");
+            if got != want { witness("C08", format!("binary operator {op:?} on {be}"), got, &want); }
+        }
+    }
+    for (op, txt) in pg { n += 1; let got = e(B::PgOperator(op)).to_string(PostgresQueryBuilder); let want = format!("SELECT \"a\" {txt} \"b\""); if got != want { witness("C08", format!("Postgres operator {op:?}"), got, &want); } }
+    for (op, txt) in sl { n += 1; let got = e(B::SqliteOperator(op)).to_string(SqliteQueryBuilder); let want = format!("SELECT \"a\" {txt} \"b\""); if got != want { witness("C08", format!("SQLite operator {op:?}"), got, &want); } }
+    n
+}
+
 fn h(v: &impl Hash) -> u64 { let mut s = DefaultHasher::new(); v.hash(&mut s); s.finish() }
 
 fn c18() -> usize {
@@ -176,6 +205,6 @@ fn c18() -> usize {
 fn main() {
     std::panic::set_hook(Box::new(|_| {}));
     let prop = std::env::args().nth(1).unwrap_or_default();
-    let r = std::panic::catch_unwind(|| match prop.as_str() { "C12" => c12(), "C18" => c18(), "C03" => c03(), _ => { eprintln!("usage: vreplay12 C12|C18"); std::process::exit(2) } });
+    let r = std::panic::catch_unwind(|| match prop.as_str() { "C12" => c12(), "C18" => c18(), "C03" => c03(), "C08" => c08(), _ => { eprintln!("usage: vreplay12 C12|C18"); std::process::exit(2) } });
     match r { Ok(n) => println!("CASES {n}"), Err(_) => witness(&prop, "(whole search)".into(), "a conversion / comparison panicked".into(), "no panic") }
 }
